@@ -70,6 +70,52 @@ def keys(F, res):
 SORT_RE = re.compile(r"::(sort|sort_by|sort_by_key|sort_unstable|sort_unstable_by|sort_unstable_by_key|sort_by_cached_key)$")
 
 
+ORD_ATOM = re.compile(r"^(u8|u16|u32|u64|u128|usize|i8|i16|i32|i64|i128|isize|pallas::ledger::pallas_primitives::Hash<\d+>|pallas::crypto::hash::Hash<\d+>|pallas_crypto::hash::Hash<\d+>|\[u8\]|\[u8; \d+\]|std::vec::Vec<u8>|pallas::codec::utils::Bytes|pallas::ledger::pallas_primitives::Bytes|pallas::ledger::pallas_primitives::TransactionInput|pallas::ledger::pallas_primitives::conway::TransactionInput)$")
+
+
+def split_tuple(t):
+    out, depth, cur = [], 0, ""
+    for ch in t:
+        if ch in "(<[":
+            depth += 1
+        elif ch in ")>]":
+            depth -= 1
+        if ch == "," and depth == 0:
+            out.append(cur.strip())
+            cur = ""
+        else:
+            cur += ch
+    if cur.strip():
+        out.append(cur.strip())
+    return out
+
+
+def ledger_order(ty):
+    """does the natural Ord of `ty` coincide with the ledger's canonical order of the item it identifies?  True for
+    integers, hashes and byte strings (numeric / bytewise) and for tuples and references of those; False for textual
+    renderings (String/&str: "…#10" < "…#2") and for anything unknown."""
+    ty = ty.strip()
+    while ty.startswith("&"):
+        ty = re.sub(r"^&('\w+ )?(mut )?", "", ty).strip()
+    if ty.startswith("(") and ty.endswith(")"):
+        parts = split_tuple(ty[1:-1])
+        return bool(parts) and all(ledger_order(x) for x in parts)
+    return bool(ORD_ATOM.match(ty))
+
+
+def sort_order_ok(t):
+    """the order a recognised sort call establishes: (ok, description)"""
+    c = (t.get("callee") or "").split("::")[-1]
+    g = t.get("gargs") or []
+    if c in ("sort", "sort_unstable"):
+        ty = g[0] if g else "?"
+        return ledger_order(ty), "natural order of `%s`" % ty
+    if c in ("sort_by_key", "sort_unstable_by_key", "sort_by_cached_key"):
+        ty = g[1] if len(g) > 1 else "?"
+        return ledger_order(ty), "order of the key `%s`" % ty
+    return None, "custom comparator"
+
+
 def sortedness(F, f, du, cfg, pos_bb, slice_op, depth=0):
     """is the collection searched at pos_bb sorted?  returns (bool, reason)"""
     # (a) a dominating sort call on the same Vec
@@ -83,7 +129,10 @@ def sortedness(F, f, du, cfg, pos_bb, slice_op, depth=0):
         if SORT_RE.search(c) and cfg.dominates(bi, pos_bb):
             so = {repr(o) for o in mir.provenance(f, du, t["args"][0], transparent_extra=("std::ops::DerefMut::deref_mut",))}
             if so & roots:
-                return True, "a dominating `%s` on the same vector" % c.split("::")[-1]
+                good, what = sort_order_ok(t)
+                if good is False:
+                    return False, "sorted by the %s, which is not the ledger's numeric/bytewise order of the item (a textual rendering orders `#10` before `#2`)" % what
+                return True, "a dominating `%s` on the same vector (%s)" % (c.split("::")[-1], what)
     # (b) collected from a BTreeMap iteration
     for o in target:
         if o.kind == "call" and o.callee == "std::iter::Iterator::collect":
@@ -108,7 +157,7 @@ def sortedness(F, f, du, cfg, pos_bb, slice_op, depth=0):
                 for g, bj, t in callers:
                     okk, why = sortedness(F, g, mir.DefUse(g), mir.CFG(g), bj, t["args"][argn - 1], depth + 1)
                     if not okk:
-                        return False, "caller %s passes an unsorted slice" % g["path"].split("::")[-1]
+                        return False, "caller %s passes a slice that is not in ledger order: %s" % (g["path"].split("::")[-1], why)
                     reasons.append("%s: %s" % (g["path"].split("::")[-1], why))
                 return True, "; ".join(reasons)
     return False, "no dominating sort and not a BTreeMap iteration"
